@@ -386,6 +386,17 @@ def check_names(ctx, case, le, make_lut, sets, which, dup, absent=('', 'no such 
                                 break
             except Exception as e:  # noqa
                 ctx.fail_exc('%s.%s' % (tagp, acc), e, case, extra='(%s, %s)' % (which, via))
+    # Mapping equality and the documented get_entries()/set_entries() round trip
+    try:
+        lut, lut2 = make_lut(), make_lut()
+        if not dup and not (lut == {n: (cu, die) for n, cu, die in pairs}):
+            ctx.fail('%s.eq' % tagp, '%s: table != dict of the encoded pairs' % which, case)
+        ents, hdrs = lut.get_entries(), lut.get_cu_headers()
+        lut2.set_entries(ents, hdrs)
+        if len(lut2) != len(distinct) or lut2.get_cu_headers() is not hdrs or list(lut2.items()) != list(ents.items()):
+            ctx.fail('%s.set_entries' % tagp, '%s: a table fed with set_entries() does not answer from those entries' % which, case)
+    except Exception as e:  # noqa
+        ctx.fail_exc('%s.set_entries' % tagp, e, case)
     return pairs, True
 
 
@@ -1127,7 +1138,11 @@ def sweep(tier):
                 for i, rs in enumerate(lay):
                     info = 0x40 if name == 'same-unit-twice' else [0, 0xb, 0x1234, 0xffffffff, 0x80, 0x7fffffff, 0x100, 0xc][i]
                     sets.append({'A': A, 'info': info, 'ranges': rs})
-                cases.append({'fam': 'aranges', 'le': le, 'default_addr': 12 - A, 'sets': sets, 'queries': [], 'sweep': name})
+                c = {'fam': 'aranges', 'le': le, 'default_addr': 12 - A, 'sets': sets, 'queries': [], 'sweep': name}
+                if name == 'no-sets':
+                    # (the note also keeps this case from being the smallest representative of a bucket it shares with all-empty tables)
+                    c['note'] = 'a .debug_aranges section of zero bytes: no sets at all, every lookup must answer None ' + '.' * 40
+                cases.append(c)
         # mixed address sizes (alignment: 4-byte sets before an 8-byte set carry an odd number of ranges)
         mixed = [{'A': 4, 'info': 0x10, 'ranges': [[0x1000, 0x10]]}, {'A': 8, 'info': 0x20, 'ranges': [[0x1010, 0x10], [1 << 32, 1 << 32]]},
                  {'A': 4, 'info': 0x30, 'ranges': [[0xfffffff0, 0x10], [0x10, 4], [0x20, 4]]}, {'A': 8, 'info': 0x40, 'ranges': []},
